@@ -14,8 +14,9 @@ pub fn check(name: &str, case: &Value, v: &Violation) -> bool {
         }
         // KF-025: an identifier character the pinned rustc (Unicode 15.1) does not know yet
         "identifier_char_unknown_to_pinned_rustc" => (v.detail.contains("unknown start of token") || v.detail.contains("identifiers cannot contain")) && !case.to_string().is_ascii(),
-        // KF-026: a definition called `Default` shadows the trait the generated code names unqualified
-        "definition_named_default" => any_schema_node(case, &mut |o| o.keys().any(|k| crate::gen::names::sanitize_like(k, true) == "Default") && o.values().all(|x| x.is_object() || x.is_boolean())) && (v.detail.contains("Default") || v.detail.contains("default")),
+        // KF-026: a definition named like a prelude item the generated code writes unqualified
+        // (`Default::default()`, `Ok(..)`, `Err(..)`, `Some(..)`, `None`) shadows it
+        "definition_named_default" => any_schema_node(case, &mut |o| o.keys().any(|k| matches!(crate::gen::names::sanitize_like(k, true).as_str(), "Default" | "Ok" | "Err" | "Some" | "None")) && o.values().all(|x| x.is_object() || x.is_boolean())),
         // KF-027: a bidirectional-control character of the schema text ends up in a doc comment
         "bidi_control_in_doc_comment" => v.detail.contains("text_direction_codepoint"),
         "root_title_is_also_a_definition" => case.get("history").and_then(|h| h.as_array()).map(|steps| steps.iter().any(|st| {
